@@ -181,7 +181,7 @@ def kani_identity(report, tier):
     kc.add(Harness("canary_must_fail", "        let a: f64 = kani::any();\n        let x = a * quantities::length::INCH;\n        assert!(x.convert(quantities::length::FOOT).amount().to_bits() == a.to_bits());\n",
                    expect="fail", key="canary", symbolic=False))
     report.bounds["kani_identity"] = "every f64 bit pattern, every unit (symbolic index) of 13 catalogue types, the 4 astronomical types and a synthetic type"
-    kc.run(report, timeout=900)
+    kc.run(report, timeout=(480 if tier == "quick" else 3000))
     confirm_failures(report)
 
 
